@@ -1,7 +1,7 @@
 (* TieC19.v — the skeleton of Session.client regenerated from /repo/bus/session/session.go
    (gen/Facts.v) is the program the machine of Session.v runs. *)
 From Coq Require Import List String.
-From QV Require Import Session SessionLife Facts.
+From QV Require Import Session SessionLife SessionView Facts.
 Import ListNotations.
 Local Open Scope string_scope.
 
@@ -19,4 +19,15 @@ Proof. reflexivity. Qed.
 Lemma tie_session_pool_users : f_session_pool_users = ["NewAuthSession"; "Terminate"; "client"].
 Proof. reflexivity. Qed.
 Lemma tie_session_terminate : f_session_terminate_pool_ops = ["Lock"; "range(s.poll){"; "Unlock"].
+Proof. reflexivity. Qed.
+
+(* the loop that keeps the session's service list up to date (updateLoop with updateServiceList
+   inlined) is the program of SessionView.v: one refresh per received signal, nothing discarded;
+   nobody else writes the list or reads the two signal channels *)
+Lemma tie_session_update_loop : f_session_update_loop = render_loop loop_prog.
+Proof. reflexivity. Qed.
+Lemma tie_session_list_users :
+  f_session_list_users = ["NewAuthSession"; "findServiceID"; "findServiceName"; "updateServiceList"].
+Proof. reflexivity. Qed.
+Lemma tie_session_signal_users : f_session_signal_users = ["NewAuthSession"; "updateLoop"].
 Proof. reflexivity. Qed.
